@@ -346,6 +346,8 @@ type CutReader struct {
 	// EmptyBefore makes every piece (and the final io.EOF) be preceded by one empty (0, nil) read: never two
 	// in a row, but as many in total as there are pieces.
 	EmptyBefore bool
+	// EOFWithLast makes the last piece arrive together with io.EOF (as iotest.DataErrReader does).
+	EOFWithLast bool
 	pos         int
 	ci          int
 	gaveEmpty   bool
@@ -376,6 +378,9 @@ func (c *CutReader) Read(p []byte) (int, error) {
 	}
 	copy(p, c.Data[c.pos:c.pos+n])
 	c.pos += n
+	if c.EOFWithLast && c.pos >= len(c.Data) {
+		return n, io.EOF
+	}
 	return n, nil
 }
 
